@@ -188,6 +188,8 @@ class Sandbox:
                     self.append_output(current_stdout.getvalue(), self._context[-1])
             self._capture_exception(timeout_exception, sys.exc_info(),
                                     code, filename)
+            # The abandoned thread recorded its context but will never count it
+            self._next_context_id = len(self._context)
             return self
 
     def _execute(self, code, filename, kind, threaded, **meta):
